@@ -44,6 +44,7 @@ type Obligation struct {
 	Output  string
 	Clause  *Clause
 	Replayed bool
+	Strategy string
 	Block   *ssa.BasicBlock
 	Cases   []string // incoming edge conditions of the obligation's block (for case splitting)
 	fc      *FnCtx
@@ -95,6 +96,7 @@ type FnCtx struct {
 	existing []existingRef
 	lemmasUsed []string
 	cmpStrings []Val
+	calleeContracts map[string]bool
 	streqSeen map[string]bool
 	allowLocals bool
 	assertBlk []*ssa.BasicBlock
@@ -120,6 +122,12 @@ func (fc *FnCtx) assertGlobal(f string) {
 }
 
 func (fc *FnCtx) finalize() {
+	// everything that queries need is computed here, single-threaded (queries are rendered concurrently)
+	for _, ob := range fc.obls {
+		if ob.Block != nil {
+			fc.ancestors(ob.Block)
+		}
+	}
 	fc.renderSpecs()
 }
 
